@@ -175,11 +175,17 @@ def run_history(case, scratch):
         import sqlite3
         c = sqlite3.connect(dbpath)
         try:
+          c.execute('PRAGMA busy_timeout=0')
           c.execute('DROP TABLE IF EXISTS "%s"' % op[1])
           if op[2] == 'garbage':
             c.execute('CREATE TABLE "%s" (col0 INTEGER, junk TEXT)' % op[1])
             c.execute('INSERT INTO "%s" VALUES (424242, \'stale\')' % op[1])
           c.commit()
+        except sqlite3.OperationalError as e:
+          # the other client cannot write either while somebody holds the lock
+          info['probes']['tamper_blocked_by_a_held_lock'] += 1
+          c.close()
+          continue
         finally:
           c.close()
         dirty = True
@@ -205,6 +211,9 @@ def run_history(case, scratch):
       R = R_of(version)
       text = gen.render(prog)
       before = sqlworld.snapshot_file(dbpath)
+      if before is None:
+        info['probes']['file_locked_before_a_run'] += 1
+        before = {}
       info['states'].add(core.digest64(sorted((k, core.digest(v)[:12]) for k, v in before.items())))
       stale_before = {g for g in ground if g in before and table_key(before[g]) != table_key(expect_table(by[g], R))}
       faults_ = [dict(f, file=dbpath) if f['kind'] == 'busy' else f for f in faults]
@@ -249,6 +258,9 @@ def run_history(case, scratch):
       for k, _ in world.fired:
         info['fired'][k] += 1
       after = sqlworld.snapshot_file(dbpath)
+      after_unobservable = after is None
+      if after is None:
+        after = dict(before)
       info['transitions'].add((prev_kind, 'faulted-run' if exc is not None else path))
       prev_kind = 'faulted-run' if exc is not None else 'run'
       if exc is not None:
@@ -256,7 +268,7 @@ def run_history(case, scratch):
           V('engine-error', type(exc).__name__, 'run failed without an injected fault: %s: %s' % (type(exc).__name__, str(exc)[:300]), i)
           continue
         # narrow relaxation: only atomicity is demanded of an aborted run
-        for g in ground:
+        for g in ([] if after_unobservable else ground):
           cands = [table_key(before.get(g)), None, table_key(expect_table(by[g], R))]
           if table_key(after.get(g)) not in cands:
             V('garbage-after-abort', 'table', 'table %s is neither old, new nor absent after the aborted run: %s' % (g, after.get(g)), i)
@@ -268,6 +280,9 @@ def run_history(case, scratch):
         last_result = None
         continue
       # ---------------- completed run
+      if after_unobservable:
+        V('engine-error', 'locked-after-run', 'the database file cannot be read after a completed run: it is still locked', i)
+        continue
       info['completed_runs'] += 1
       if dirty or stale_before:
         info['nontrivial'] = True
@@ -407,7 +422,7 @@ def shrink(case):
 
 def plan(tier):
   if tier == 'quick':
-    return {'batches': 48, 'timeout': 600, 'histories': 10, 'enumerate_aborts': 1, 'abort_positions': 8, 'wall_budget_s': 240}
+    return {'batches': 48, 'timeout': 1500, 'histories': 10, 'enumerate_aborts': 1, 'abort_positions': 8, 'wall_budget_s': 240}
   return {'batches': 640, 'timeout': 1800, 'histories': 40, 'enumerate_aborts': 6, 'abort_positions': 14, 'wall_budget_s': 3000}
 
 
